@@ -257,6 +257,10 @@ class Run:
             Obligation(f"{self.fn_label}::{clause}@{tr}", self.fn_label, clause, tr, list(self.pc), goal, w, note)
         )
 
+    def oblige_lemma(self, name: str, formula: Any) -> None:
+        """A side lemma proved on its own (no hypotheses); instances of it may then be assumed."""
+        self.obls.append(Obligation(f"{self.fn_label}::lemma.{name}@-", self.fn_label, f"lemma.{name}", "-", [], formula))
+
     # -------------------------------------------------------------- heap helpers
     def obj(self, r: Ref) -> dict[str, Any]:
         return self.heap.objs[r.oid]
@@ -765,7 +769,9 @@ class Run:
         return self.new_list(ek, r)
 
     def getitem(self, base: Any, idx: Any, n: ast.AST) -> Any:
-        if isinstance(base, tuple) and isinstance(idx, int):
+        if isinstance(base, ClassV):
+            return base  # Generic[...] subscription: Stack[str] is Stack
+        if isinstance(base, tuple) and isinstance(idx, int) and not (base and isinstance(base[0], str) and base[0].startswith("$")):
             return base[idx]
         if isinstance(base, str) and isinstance(idx, int):
             try:
@@ -1157,6 +1163,11 @@ class Run:
         raise OutOfDialect(f"list.{name}", n)
 
     def str_method(self, s: Any, name: str, args: list[Any], kwargs: dict[str, Any], n: ast.AST | None) -> Any:  # noqa: PLR0911
+        h = getattr(self.spec, "str_method", None)
+        if h is not None:
+            r = h(self, s, name, args, kwargs, n)
+            if r is not NotImplemented:
+                return r
         st = z(s)
         if name == "startswith":
             pre = args[0]
@@ -1187,11 +1198,6 @@ class Run:
             return wrap(z3.If(pp > ln, -1, z3.IndexOf(st, sub, pp)), "int")
         if name == "endswith" and len(args) == 1:
             return wrap(z3.SuffixOf(z(args[0]), st), "bool")
-        h = getattr(self.spec, "str_method", None)
-        if h is not None:
-            r = h(self, s, name, args, kwargs, n)
-            if r is not NotImplemented:
-                return r
         if isinstance(s, str) and all(_is_py(a) for a in args):
             return getattr(s, name)(*args, **kwargs)
         raise OutOfDialect(f"str.{name}", n)
